@@ -168,6 +168,13 @@ def step (line : String) : String :=
     match s0.asInt?, interpP p with
     | some s0, some p => renderOutcome showRes (GoM.exec (p s0))
     | _, _ => "bad-op"
+  | some (.list [.atom "run2", s0, s1, p]) =>
+    -- the same program value run twice: a `StM` is a function of the initial state, nothing else
+    match s0.asInt?, s1.asInt?, interpP p with
+    | some s0, some s1, some p =>
+      renderOutcome (fun (r : (Try Val × Int) × (Try Val × Int)) => s!"{showRes r.1} ; {showRes r.2}")
+        (GoM.exec (do let r0 ← p s0; let r1 ← p s1; pure (r0, r1)))
+    | _, _, _ => "bad-op"
   | some (.list [.atom "exec", s0, p]) =>
     match s0.asInt?, interpP p with
     | some s0, some p => renderOutcome (fun (t : Try Int) => match t with
